@@ -1,7 +1,7 @@
 #!/bin/sh
 # ./retest_seed.sh <seed name> <test ids...> : tests that failed in a loaded suite run, alone, in a patched scratch worktree
 N=$1; shift
-D=/verif/seeded/$N; WT=/tmp/validate/r_$N; mkdir -p /tmp/validate; rm -rf $WT; git -C /repo worktree prune
+D=/verif/seeded/$N; WT=/root/scratch/validate/r_$N; mkdir -p /root/scratch/validate; rm -rf $WT; git -C /repo worktree prune
 git -C /repo worktree add --detach $WT HEAD -q || exit 2
 git -C $WT apply $D/patch.diff 2>/dev/null || { git -C /repo worktree remove --force $WT; git -C /repo worktree add --detach $WT 05d7c43 -q; git -C $WT apply $D/patch.diff; }
 (cd $WT && env -u PYNENC_VERIF PYTHONPATH=$WT timeout 1800 /venv/bin/python -m pytest -q -p no:cacheprovider --timeout=600 "$@" 2>&1 | grep -aE "[0-9]+ passed|[0-9]+ failed|[0-9]+ error" | tail -1 | sed "s/^/$N retest: /")
